@@ -273,6 +273,10 @@ func (ex *Exec) symbolsOf(t *Term) map[string]bool {
 			if t.Fn != nil && t.Fn.DefBody == nil {
 				out["fn:"+t.Name] = true
 			}
+			if t.Fn != nil && t.Fn.DefBody != nil {
+				// a defined function: the symbols of its body are used wherever it is applied
+				rec(t.Fn.DefBody)
+			}
 		}
 		for _, a := range t.Args {
 			rec(a)
